@@ -183,6 +183,9 @@ def capture_violation(name):
     from . import fragments
     comps = {"M": {"type": "object", "required": [name], "properties": {name: {"type": "string", "format": "date"}, "zz-other": {"type": "integer"}}},
              "O": {"type": "object", "properties": {name: {"type": "integer"}, "zz-other": {"type": "string", "format": "date"}}},
+             "X": {"type": "object", "properties": {name: {"type": "integer"}}, "additionalProperties": {"type": "string", "format": "date"}},
+             "U": {"type": "object", "properties": {"aa-first": {"type": "string", "nullable": True}, name: {"type": "integer"},
+                                                    "zz-union": {"oneOf": [{"type": "string", "format": "date"}, {"type": "integer"}]}}},
              "CapBody": {"type": "object", "properties": {"k": {"type": "integer"}}}}
     paths = {"/q": {"post": {"operationId": "capq", "tags": ["b"],
                              "parameters": [{"name": name, "in": "query", "schema": {"type": "string"}},
@@ -195,9 +198,13 @@ def capture_violation(name):
         try:
             M = pkg.module("models.m").M
             O = pkg.module("models.o").O
+            X = pkg.module("models.x").X
+            U = pkg.module("models.u").U
         except BaseException as e:  # noqa
             return None if pkg.errors else f"models do not import: {type(e).__name__}: {e}"
-        for cls, src in ((M, {name: "2020-01-02", "zz-other": 3}), (M, {name: "2020-01-02", "extra": 1}), (O, {name: 5, "zz-other": "2020-01-02"}), (O, {})):
+        for cls, src in ((M, {name: "2020-01-02", "zz-other": 3}), (M, {name: "2020-01-02", "extra": 1}), (O, {name: 5, "zz-other": "2020-01-02"}), (O, {}),
+                         (X, {name: 1, "extra": "2020-01-02", "more": "2021-02-03"}), (X, {"extra": "2020-01-02"}),
+                         (U, {"aa-first": None, name: 2, "zz-union": "2020-01-02"}), (U, {"aa-first": "s", name: 2, "zz-union": 7})):
             try:
                 out = cls.from_dict(dict(src)).to_dict()
             except BaseException as e:  # noqa
